@@ -54,6 +54,24 @@ def sources(tier, seed, ctx):
     for x in (40, 41, 42, 43, 44):
         leaves = [ck.acell(ck.rand_bits(rng, 400), []) for _ in range(4)]
         src.append(('payload_%d' % (214 + x), leaves + [ck.acell(ck.rand_bits(rng, 8 * x), [1, 2, 3, 4])]))
+    # level masks that are not nested: an ordinary cell over pruned branches of masks 1, 2 and 4 has the UNION of them in d1
+    def prb(mask):
+        n = bin(mask).count('1')
+        y = bytes([1, mask]) + bytes(rng.getrandbits(8) for _ in range(32 * n)) + b''.join(rng.randint(0, 5).to_bytes(2, 'big') for _ in range(n))
+        return dict(ck.acell([], [], t=1), n=8 * len(y), y=list(y))
+    for masks in ((1, 2), (2, 1), (1, 4), (2, 4), (1, 2, 4), (3, 4), (5, 2), (6, 1)):
+        kids = [prb(m) for m in masks]
+        top = ck.acell(ck.rand_bits(rng, 5), list(range(1, len(kids) + 1)))
+        src.append(('masks_%s' % '_'.join(map(str, masks)), kids + [top]))
+        # ... and one level further up, next to a plain leaf
+        src.append(('masks_up_%s' % '_'.join(map(str, masks)), kids + [top, ck.acell([1, 0, 1], []), ck.acell([0, 1], [len(kids) + 1, len(kids) + 2])]))
+    # an exotic cell next to an ORDINARY cell with the very same data bits and children: two different cells
+    hsh = bytes(rng.getrandbits(8) for _ in range(32))
+    lib = dict(ck.acell([], [], t=2), n=264, y=[2] + list(hsh))
+    src.append(('twins_library', [lib, dict(lib, t=0), ck.acell([1], [2, 1])]))
+    src.append(('twins_library_exotic_first', [lib, dict(lib, t=0), ck.acell([1], [1, 2])]))
+    p1 = prb(1)
+    src.append(('twins_pruned', [p1, dict(p1, t=0), ck.acell([1, 1], [2, 1, 2])]))
     # chains at the depth limit (and just below the depth at which a per-level recursion exhausts a default interpreter stack)
     for depth in ((1023, 990) if tier == 'quick' else (1023, 1022, 1000, 990, 960)):
         chain = [ck.acell([1], [])]
@@ -95,9 +113,10 @@ def emit_record(root, sheap, rootidx, note, o):
 def generate(tier, seed, ctx):
     rng = random.Random(seed)
     out = []
-    for note, heap in sources(tier, seed, ctx):
+    for k, (note, heap) in enumerate(sources(tier, seed, ctx)):
         try:
-            objs = ck.build_heap(heap, 'builder')
+            # (every third source: each builder is used again after its cell was taken - more data, another reference, a second cell)
+            objs = ck.build_heap(heap, 'reuse' if k % 3 == 1 and len(heap) < 300 else 'builder')
         except Exception as e:
             continue      # construction problems are C01/C02's subject
         root = objs[-1]
